@@ -111,8 +111,16 @@ def sized_text(draw: t.Any, sizes: t.Sequence[int]) -> str:
     return ch * n
 
 
+@st.composite
+def long_unicode_text(draw: t.Any) -> str:
+    """Long text of multi-byte characters with a short ASCII prefix (so that every byte alignment occurs)."""
+    ch = draw(st.sampled_from(["é", "€", "\U0001f600", "ü", "中"]))
+    return "x" * draw(st.integers(0, 5)) + ch * draw(st.sampled_from([20, 40, 63, 64, 100, 128, 200]))
+
+
 def text(big: bool = False) -> st.SearchStrategy[str]:
-    parts = [small_text(), small_text(), small_text(), sized_text(BOUNDARY_SIZES)]
+    parts = [small_text(), small_text(), small_text(), small_text(), small_text(), small_text(), sized_text(BOUNDARY_SIZES),
+             sized_text(BOUNDARY_SIZES), long_unicode_text()]
     if big:
         parts.append(sized_text(BIG_SIZES))
     return st.one_of(*parts)
@@ -176,13 +184,14 @@ def numericoid(draw: t.Any, min_arcs: int = 2) -> str:
 
 @st.composite
 def attr_desc(draw: t.Any) -> str:
-    base = draw(st.one_of(descr(), descr(), numericoid(), st.sampled_from(["cn", "objectClass", "sAMAccountName", "2.5.4.3"])))
+    base = draw(st.one_of(descr(), descr(), numericoid(), st.sampled_from(["cn", "objectClass", "sAMAccountName", "2.5.4.3", "dn", "dnQualifier", "DN"])))
     opts = draw(st.lists(st.text(st.sampled_from(list(_KEYCHAR)), min_size=1, max_size=6), max_size=2))
     return base + "".join(";" + o for o in opts)
 
 
 def matching_rule() -> st.SearchStrategy[str]:
-    return st.one_of(descr(), numericoid(), st.sampled_from(["caseExactMatch", "2.5.13.5", "1.2.840.113556.1.4.803"]))
+    return st.one_of(descr(), numericoid(), st.sampled_from(["caseExactMatch", "2.5.13.5", "1.2.840.113556.1.4.803",
+                                                              "dnMatch", "dns", "dn-1", "dnQualifierMatch", "DNmatch", "dn0", "d", "dnn"]))
 
 
 # ---------------------------------------------------------------------------------------- filters (abstract form)
